@@ -16,6 +16,27 @@ PROPS = {
                     LIBS["regexp"]],
         "assumptions": ["servers unchanged between fetches (the `Env` is fixed)"],
     },
+    "C04": {
+        "groups": [{"name": "C04", "quick": 1200, "thorough": 30000, "workers": 8}],
+        "rule": "fetches of URLs with hostile paths and queries (raw and encoded CR/LF, spaces, %00, fragments), userinfo, upper-case scheme, non-https schemes, scheme-less references, redirects to plaintext and to CR/LF-carrying Locations, a plaintext canary listener; webfinger lookups with hostile account and domain parts (CR/LF, spaces, '#', '?', userinfo, unresolvable names); "
+                "compared: result and the raw bytes of every connection; non-trivial = at least one connection reached the simulator; distinct by op content",
+        "trusted": ["crypto/tls, net, DNS (a TLS dial succeeds only for a syntactically valid host name or IP literal)",
+                    "url.Parse rejects ASCII control bytes, so RequestURI()/Host of a parsed URL are CR/LF-free (evaluated on every generated URL through the request comparison)",
+                    "url.Values.Encode as an oracle for the webfinger query"],
+        "assumptions": ["TLS, DNS and socket behaviour are not modelled (partial)"],
+        "shrink_budget": 4,
+    },
+    "C05": {
+        "groups": [{"name": "C05", "quick": 160, "thorough": 6000, "workers": 16, "config": "[network]\ntimeout_seconds = 1\n"}],
+        "replay_config": "[network]\ntimeout_seconds = 1\n",
+        "level": "fault_enumeration",
+        "rule": "a document behind 0..2 redirect hops over the TLS simulator, one hop carrying a fault: response cut at a random byte or at a structural boundary (status line, CRLF, blank line, last byte) followed by EOF, TCP reset or silence; total silence after the handshake; 25 ms/byte trickle; TCP accept without TLS handshake; timeout 1 s; "
+                "compared: result class with the model on the bytes the client can have received, and wall-clock <= (connections+1)*2 s + 1.5 s; non-trivial = at least two connections; distinct by op content",
+        "trusted": ["net.Conn honours SetDeadline; json.Decoder succeeds only on a complete top-level value (validated by the cut-point enumeration)",
+                    "crypto/tls, the Go scheduler and wall-clock time (observed, not proved)"],
+        "assumptions": ["timeout_seconds > 0 (0 means no timeout, as for net.Dialer)"],
+        "shrink_budget": 0,
+    },
     "C10": {
         "groups": [{"name": "C10", "quick": 4000, "thorough": 150000}],
         "rule": "page chains of 0..18 embedded pages (Collection/OrderedCollection, items on the root and/or pages, empty pages with varying bias, absent/null/single-value items, wrong page types, chains ending in a non-https reference, a non-object, a non-collection or an object that would need re-fetching) x request-size sequences (one large request, constant small requests, random sizes incl. 0) x start offsets; "
@@ -99,6 +120,18 @@ MANIFEST_TEXT = {
         "design_ref": "DESIGN.md §5 C03",
         "note": "Trusted: Lean kernel; correspondence check (testing); TLS/net; url and json libraries as oracle tables; LRU order as modelled.",
         "technique": "Lean 4 proof (structural recursion on the redirect budget, cache soundness invariant) + differential correspondence against a TLS simulator",
+    },
+    "C04": {
+        "text": "Lean theorems about the byte template of the only connection.Write: for CR/LF-free request-URI, host and accept the bytes parse (with a strict HTTP/1.0 reader) as exactly one GET with a Host and an Accept header and nothing after the blank line; connections are opened only for https URLs on every hop. Tied to jtp.go/client.go by recording the raw bytes of every connection at a TLS simulator (plus a plaintext canary) for hostile URLs and webfinger handles and comparing them with the template. Partial: TLS, DNS, sockets are not modelled.",
+        "design_ref": "DESIGN.md §5 C04",
+        "note": "Trusted: Lean kernel; correspondence check (testing); net/url control-byte rejection; crypto/tls; DNS.",
+        "technique": "Lean 4 proof (byte-level request contract) + differential correspondence on recorded connection bytes",
+    },
+    "C05": {
+        "text": "Lean theorems about the classification of truncated streams: if a complete response is a document, every truncation inside the status line or header block is an error and a truncation inside the body hands exactly the truncated body to the decoder, so with a prefix-free decoder a truncated response is never a document; a fetch opens at most budget+1 connections, hence is bounded by (budget+1)*T when each connection is bounded by T. The runtime part (deadline honoured, TLS, resets, stalls, trickling, wall-clock) is enumerated against the real jtp.Get with the simulator's fault modes. Partial by nature.",
+        "design_ref": "DESIGN.md §5 C05",
+        "note": "Trusted: Lean kernel; fault-injection correspondence (testing); net.Conn deadlines; json.Decoder; wall-clock.",
+        "technique": "Lean 4 proof (prefix lemmas on the response reader) + fault enumeration against a TLS simulator",
     },
     "C10": {
         "text": "Lean theorems for every page chain given by an arbitrary load function (cyclic and endless chains included) and all request sizes and offsets: bounded number of pages visited; the delivery is a prefix of the true sequence followed by at most one error item; a continuation means exactly the requested amount; harvesting n1 then n2 equals harvesting n1+n2; an empty continuation without error only at a clean end with everything delivered; refusal only after more than three consecutive empty pages. Termination itself is the well-founded measure of the model. Tied to collection.go by differential correspondence on generated embedded chains; the prefix predicate is evaluated on every implementation output.",
